@@ -64,6 +64,24 @@ fn find(id: &str) -> Option<CheckDef> {
     registry().into_iter().find(|c| c.id == id)
 }
 
+/// run a check; a panic that escapes the check's own guards is a violation when it comes from the
+/// library under test and an inconclusive run when it comes from the harness
+fn run_guarded(ctx: &Ctx, def: &CheckDef, rep: &Report) {
+    let mut escaped: Vec<crate::util::par::PanicInfo> = Vec::new();
+    if let Err(p) = crate::util::par::guard(|| (def.run)(ctx, rep)) {
+        escaped.push(p);
+    }
+    escaped.extend(crate::util::par::ESCAPED.lock().unwrap_or_else(|e| e.into_inner()).drain(..));
+    let repo_src = format!("{}/src/", ctx.repo_dir.display());
+    for p in escaped {
+        if p.file.starts_with(&repo_src) || !p.rpm_frame.is_empty() {
+            rep.violation(format!("panic:{}", p.site()), format!("the library panicked outside of a guarded operation: {} at {}:{}", p.message, p.file, p.line), serde_json::json!({"kind": "escaped-panic", "message": p.message, "file": p.file, "frame": p.rpm_frame}), 0);
+        } else {
+            rep.inconclusive(format!("harness panicked: {} at {}:{}", p.message, p.file, p.line));
+        }
+    }
+}
+
 fn dbg_binary() -> Option<PathBuf> {
     if let Ok(p) = std::env::var("VERIF_DBG_BIN") {
         let p = PathBuf::from(p);
@@ -109,7 +127,7 @@ pub fn run_check(ctx: &Ctx) -> i32 {
     } else {
         None
     };
-    (def.run)(ctx, &rep);
+    run_guarded(ctx, &def, &rep);
     if let Some((mut child, out)) = sub {
         match child.wait() {
             Ok(st) if st.success() => match std::fs::read(&out).ok().and_then(|b| serde_json::from_slice::<ReportData>(&b).ok()) {
@@ -129,7 +147,7 @@ pub fn run_subcheck(ctx: &Ctx, out: &str) -> i32 {
     let Some(def) = find(&ctx.id) else { return 64 };
     crate::util::par::install_panic_hook();
     let rep = Report::new();
-    (def.run)(ctx, &rep);
+    run_guarded(ctx, &def, &rep);
     let data = rep.into_data();
     match std::fs::write(out, serde_json::to_vec(&data).unwrap()) {
         Ok(_) => 0,
